@@ -40,7 +40,7 @@ type cfg struct {
 
 func (c cfg) name() string {
 	if c.slow > 0 {
-		return fmt.Sprintf("ticker/interval=%s/length=%s/profile=%v/slow-body=%s", c.interval, c.length, c.profile, c.slow)
+		return fmt.Sprintf("ticker/interval=%s/length=%s/profile=%v/slow-body=%s/max-iterations=%d", c.interval, c.length, c.profile, c.slow, c.limit)
 	}
 	if c.stall > 0 {
 		return fmt.Sprintf("ticker/interval=%s/length=%s/profile=%v/rate-function-stalls=%s", c.interval, c.length, c.profile, c.stall)
@@ -100,7 +100,7 @@ func scenario(c cfg) vrt.Scenario {
 		ctx, cancel := vctx.WithTimeout(vctx.Background(), c.length)
 		defer cancel()
 		vrt.LogQuiet(fmt.Sprintf("start %d", vrt.Clock()))
-		api.NewIterationWorker(c.interval, rate)(ctx, ui.NewDiscardOutput(), mgr, options.RunOptions{Concurrency: conc})
+		api.NewIterationWorker(c.interval, rate)(ctx, ui.NewDiscardOutput(), mgr, options.RunOptions{Concurrency: conc, MaxIterations: c.limit})
 		vrt.LogQuiet(fmt.Sprintf("trigger-returned %d", vrt.Clock()))
 		x.gate.Store(true)
 		vrt.Recv(mgr.WaitForCompletion())
@@ -236,6 +236,10 @@ func scenariosFor(tier string) []vrt.Scenario {
 		s := scenario(cfg{interval: 100 * ms, length: 450 * ms, profile: p, slow: 130 * ms})
 		s.Bound = b
 		out = append(out, s)
+		// the same with a max-iterations limit that is never reached: the limit changes nothing about what a tick requests
+		sl := scenario(cfg{interval: 100 * ms, length: 450 * ms, profile: p, slow: 130 * ms, limit: 1000})
+		sl.Bound = b
+		out = append(out, sl)
 	}
 	{
 		// a stalling rate function: ticks are served late, but never more often than one per interval
